@@ -22,11 +22,12 @@ CONFIG = dict(
                "implementation answered to its callers.",
     level_note="Trusted: Lean kernel, harness/driver line protocol and canonicalisation (a response is read as granted / refused / acknowledged "
                "from its NormalAck code; no answer, an error, another code or a second answer are shown as such and reported as C18/request-answer), the reflect-based record probe (fields located by type/shape, `?` "
-               "when unresolved - counted as probe.unresolved.* in the generator histogram) and the one-line overlay calling the periodic update "
-               "in the histories that do not run the timer. The theorems are about the model; the differential run ties it to the code on sampled "
+               "when unresolved - counted as probe.unresolved.* in the generator histogram) and, for the explicit tick, reading the periodic update as the callback "
+               "of the timer object PlayerMgr.Start registers (no overlay, no unexported identifier named). The accounts of a `crowd` operation are compared "
+               "through a summary (counts of answers / requests, np / nt), not per account. The theorems are about the model; the differential run ties it to the code on sampled "
                "and bounded-exhaustive histories only. Not driven: the service's own 30 s request timeout for an unanswered offline request "
                "(equivalent to an error reply, which is driven), and a scan finding two expired parked logins at once (Go map order decides which "
-               "is dropped; the theorems cover every choice). NOT proved, and not true of the code without the environment assumptions listed: "
+               "is dropped; the theorems cover every choice; with a crowd parked this excludes closed / logined / offline-reply operations from 30 s after the crowd on). NOT proved, and not true of the code without the environment assumptions listed: "
                "'two game-logic instances never coexist' (witness theorem late_logined_then_second_load: a logined report arriving after the "
                "2 min expiry is ignored and a second load is authorised) and 'previous connection closed' per connection (witness "
                "stale_closed_report_unbinds_current_connection: a closed report carries only the account id). 'Refused until the time limit "
@@ -46,7 +47,6 @@ CONFIG = dict(
                        "logined_without_record_ignored", "late_logined_then_second_load", "stale_closed_report_unbinds_current_connection",
                        "remote_grants_iff_accepted", "remote_refuses_while_held", "remote_grant_takes_lock", "remote_notifications_acknowledged"],
     harness_pkg="./c18",
-    go_flags=["-overlay=/verif/harness/c18/overlay/overlay.json"],
     mode="diff",
     reset_prefix="reset",
     runs={
@@ -69,6 +69,9 @@ CONFIG = dict(
          "PlayerMgr.Start running, `reset timer=1` / `advt`, a quarter of those advances landing 1 ms before / on / 1 ms after a firing) aimed at just before / at / just after each of the "
          "3 s / 30 s / 2 min / 3 min / 5 min / 30 min limits (the deadlines the implementation currently shows, or counted from the instants "
          "something with a limit started); ~1% malformed lines (unknown op, account out of range, missing fields); 6-25 ops per history; "
+         "about 1 history in 80 starts with `crowd b=0 n=N` (N around 2 / 64 / 512 / 1024 / 1200): N further accounts (ids above 1000) each go through login on gate-1, logined, "
+         "second login from gate-2 asking for the kick - 3N real requests - so that the centre's tables hold ~N records and ~N parked logins while the printed accounts are driven "
+         "(the model executes the same 3N operations; the theorems quantify over all account ids); "
          "plus every op sequence of length 3 (quick) / 5 (thorough) over a 14-op alphabet for 1 account x 2 connections, and a breadth-first search "
          "that tries each of 21 ops (incl. advances to 1 ms before each limit) from every distinct centre state reachable within 5 (quick) / 8 (thorough) ops, "
          "and the same search with the timer running (19 ops, advances that stop just before / on a firing) within 5 (quick) / 6 (thorough) ops; "
@@ -79,9 +82,9 @@ CONFIG = dict(
         "hand-written model lean/Cell2v/Model/Center.lean (PlayerMgr) + lean/Cell2v/Model/CenterRemote.lean (the remote API's answers) tied to the Go code by the differential run of this check (harness/c18 + modeld_c18)",
         "property monitor lean/Cell2v/Spec/C18.lean (the statement of the property on observable histories; it shares the operation/event types and the "
         "timer's firing instants with the model, states the time limits itself)",
-        "overlay harness/c18/overlay/export_verif.go: one method calling the unexported periodic update (op tick; the histories started by `reset timer=1` "
-        "call PlayerMgr.Start instead and let the real timer manager of the service call it; the timers Start registered are found in the timer manager's "
-        "sync.Map - located by type - and cancelled at the next reset); the per-account record is read through exported "
+        "no white-box shim: op tick calls the callback PlayerMgr.Start hands to the service's timer manager (every reset calls Start; the timer object is found in the "
+        "timer manager's sync.Map - located by type - its exported CB field is the periodic update; without `timer=1` the timer is cancelled again at once, with it the "
+        "real timer manager of the service fires it and it is cancelled at the next reset); the per-account record is read through exported "
         "API (GetState, FrontId, NetId, GetLogicId) and, for the lock / limits / parked task, with reflect+unsafe by field type and shape (never by name); "
         "an unrecognised shape degrades to `?` in the observation (model echoes it), it does not fail the check",
         "the harness's requester: ServiceRequest / ServiceResponse built and read at the wire level (remote.Serialize / Deserialize with the service's "
@@ -95,7 +98,7 @@ CONFIG = dict(
         "the periodic update is called explicitly (op tick) in two thirds of the histories, by the 1 s timer registered in PlayerMgr.Start in the rest "
         "(the model assumes what the run confirms: firings exactly every 1000 ms of virtual time from Start, the update reading the clock at the firing)",
         "front-ends answer kick requests at once; the logic server answers (or fails) an offline request before the service's 30 s request timeout",
-        "login request ids are per account; account ids 1..3",
+        "login request ids are per account; account ids 1..3 driven individually, ids 1001.. only through the uniform crowd sequence",
         "environment, not enforced by the centre: a logic instance whose login was not confirmed (logined) within 2 min of the authorisation, or whose "
         "logout did not complete within 30 min, has discarded itself and stays silent ('logic frees itself', comment in onLoginningTimeout) - needed to "
         "read 'no double load' as 'no two logic instances'; the logic server's enter flow has a TODO where it would do so",
